@@ -371,9 +371,16 @@ class Hist:
                     break
                 nd += 1
             if len(g.args) - nd <= len(vals) <= len(g.args) and \
-                    all(self.compatible(v, a.ty) for v, a in zip(vals, g.args)):
+                    all(self.guard_accepts(v, a.ty) for v, a in zip(vals, g.args)):
                 return True
         return False
+
+    def guard_accepts(self, v, ty):
+        """what a class-and-shape guard in MATLAB can tell: a `char` parameter's guard sees a char array of any
+        length (only the conversion insists on one character)"""
+        if ty.kind == "prim" and ty.name == "char":
+            return isinstance(v, S.MChar)
+        return self.compatible(v, ty)
 
     # -- trace handling ----------------------------------------------------------------------
     def absorb_trace(self):
